@@ -52,7 +52,7 @@ func c02r1(r *R) {
 		e0, e1 := c.Expr(ret.Results[0]), c.Expr(ret.Results[1])
 		gs := c.guardStrs(i.Block())
 		if e1 == "nil" {
-			o.AtI(i).Check(strings.HasPrefix(e0, "(*ja4.JA4Fingerprint).String(&") && hasGuardContaining(gs, "-", "UnmarshalBytes("), "JA4Fingerprint returns %s under %v", e0, gs)
+			o.AtI(i).Check(strings.HasPrefix(e0, "(*ja4.JA4Fingerprint).String(&") && guardOkOn(gs, "UnmarshalBytes("), "JA4Fingerprint returns %s under %v", e0, gs)
 			if call, ok := ret.Results[0].(*ssa.Call); ok && len(ub) == 1 {
 				o.Check(call.Call.Args[0] == callOf(ub[0]).Args[0], "String() is taken from a different struct than the one filled")
 			}
@@ -72,7 +72,7 @@ func c02r1(r *R) {
 		for _, s := range callsIn(um, "(*ja4.JA4Fingerprint).Unmarshal") {
 			b := callOf(s).Args
 			o2.AtI(s).Check(b[0] == ssa.Value(um.Params[0]) && b[1] == a[0] && c.Expr(b[2]) == "p2", "Unmarshal(%s, %s, %s): want (j, the parsed spec, protocol)", c.Expr(b[0]), c.Expr(b[1]), c.Expr(b[2]))
-			o2.Check(hasGuardContaining(c.guardStrs(s.Block()), "-", "FromRaw("), "Unmarshal runs although parsing failed")
+			o2.Check(guardOkOn(c.guardStrs(s.Block()), "FromRaw("), "Unmarshal runs although parsing failed")
 		}
 	}
 	// Unmarshal calls every part exactly once, with keepOriginalOrder=false
@@ -207,7 +207,16 @@ func c02r3(r *R) {
 	r.need(su != nil, "sortUint16 not found")
 	o2 := r.Ob("C02.R3", "comparator:"+funcName(su)).At(su.Pos())
 	ss := callsIn(su, "sort.Slice", "sort.SliceStable")
-	if o2.Check(len(ss) == 1, "sortUint16 does not call sort.Slice") {
+	var gen []ssa.Instruction
+	eachInstr(su, func(i ssa.Instruction) {
+		if cc := callOf(i); cc != nil && (calleeName(cc) == "slices.Sort" || calleeName(cc) == "slices.SortStable" || strings.HasPrefix(calleeName(cc), "slices.Sort[") || strings.HasPrefix(calleeName(cc), "slices.SortStable[")) {
+			gen = append(gen, i)
+		}
+	})
+	if len(ss) == 0 && len(gen) == 1 {
+		// slices.Sort: ascending order of an ordered element type (summary S7)
+		o2.AtI(gen[0]).Check(c.Expr(callOf(gen[0]).Args[0]) == "p0", "slices.Sort sorts %s", c.Expr(callOf(gen[0]).Args[0]))
+	} else if o2.Check(len(ss) == 1, "sortUint16 does not call sort.Slice / slices.Sort exactly once") {
 		o2.Check(c.Expr(callOf(ss[0]).Args[0]) == "p0", "sort.Slice sorts %s", c.Expr(callOf(ss[0]).Args[0]))
 		if cl := closureTarget(callOf(ss[0]).Args[1]); o2.Check(cl != nil, "comparator is not a function literal") {
 			eachInstr(cl, func(i ssa.Instruction) {
@@ -373,6 +382,7 @@ func c02r5(r *R) {
 	ts := c.Func("pkg/ja4", "truncatedSha256")
 	r.need(ts != nil, "truncatedSha256 not found")
 	o2 := r.Ob("C02.R5", "truncated-sha256:"+funcName(ts)).At(ts.Pos())
+	altSha := false
 	eachInstr(ts, func(i ssa.Instruction) {
 		if ret, ok := i.(*ssa.Return); ok {
 			sl, isSl := ret.Results[0].(*ssa.Slice)
@@ -382,6 +392,22 @@ func c02r5(r *R) {
 			hi, okh := constInt(sl.High)
 			o2.AtI(i).Check(sl.Low == nil && okh && hi == 12, "hash is cut to [%s:%s], want [:12]", exprOrNil(c, sl.Low), exprOrNil(c, sl.High))
 			sp, isSp := sl.X.(*ssa.Call)
+			if isSp && calleeName(&sp.Call) == "encoding/hex.EncodeToString" {
+				// hex.EncodeToString(sha256.Sum256([]byte(in))[:]) is the same lower-case hex digest
+				okSum := false
+				if s2, ok := sp.Call.Args[0].(*ssa.Slice); ok && s2.Low == nil && s2.High == nil {
+					if al, ok := s2.X.(*ssa.Alloc); ok {
+						if st := uniqueStore(al); st != nil {
+							if sc, ok := st.Val.(*ssa.Call); ok && calleeName(&sc.Call) == "crypto/sha256.Sum256" && c.Expr(sc.Call.Args[0]) == "p0" {
+								okSum = true
+							}
+						}
+					}
+				}
+				o2.Check(okSum, "hex digest is computed from %s, want sha256.Sum256 of the argument string", c.Expr(sp.Call.Args[0]))
+				altSha = true
+				return
+			}
 			if o2.Check(isSp && calleeName(&sp.Call) == "fmt.Sprintf", "the sliced string is %s", c.Expr(sl.X)) {
 				f, _ := constString(sp.Call.Args[0])
 				els := variadicElems(sp.Call.Args[1])
@@ -390,7 +416,7 @@ func c02r5(r *R) {
 		}
 	})
 	ws := callsIn(ts, "(io.Writer).Write", "(hash.Hash).Write")
-	o2.Check(len(ws) == 1 && c.Expr(callArgs(callOf(ws[0]))[1]) == "p0" && c.Expr(callArgs(callOf(ws[0]))[0]) == "crypto/sha256.New()", "the hash input is not exactly the argument string")
+	o2.Check(altSha || len(ws) == 1 && c.Expr(callArgs(callOf(ws[0]))[1]) == "p0" && c.Expr(callArgs(callOf(ws[0]))[0]) == "crypto/sha256.New()", "the hash input is not exactly the argument string")
 	// joinUint16
 	ju := c.Func("pkg/ja4", "joinUint16")
 	r.need(ju != nil, "joinUint16 not found")
@@ -402,13 +428,17 @@ func c02r5(r *R) {
 			return
 		}
 		switch calleeName(&call.Call) {
-		case "fmt.Sprintf":
+		case "fmt.Sprintf", "fmt.Fprintf":
 			nfmt++
-			f, _ := constString(call.Call.Args[0])
-			els := variadicElems(call.Call.Args[1])
+			k := 0
+			if calleeName(&call.Call) == "fmt.Fprintf" {
+				k = 1
+			}
+			f, _ := constString(call.Call.Args[k])
+			els := variadicElems(call.Call.Args[k+1])
 			o3.AtI(i).Check(f == "%04x" && len(els) == 1 && c.Expr(els[0]) == "p0["+rngIdx+"]", "element rendering is %q of %v, want %%04x of every element", f, els)
 			o3.Check(onlyGuards(c, i.Block(), "+("+rngIdx+" < builtin.len(p0))") == "", "an element is rendered only under %v", c.guardStrs(i.Block()))
-		case "(*bytes.Buffer).WriteString":
+		case "(*bytes.Buffer).WriteString", "(*strings.Builder).WriteString":
 			if c.Expr(call.Call.Args[1]) == "p1" {
 				gs := c.guardStrs(i.Block())
 				o3.AtI(i).Check(hasGuard(gs, "+("+rngIdx+" != 0)"), "separator written under %v", gs)
